@@ -344,6 +344,7 @@ func runHTTPClient(t *testing.T, c *HTTPCase, trace bool) *common.Outcome {
 		if trackBody != nil {
 			conf.BodyAllocator = trackBody
 		}
+		nbio.MaxOpenFiles = kernel.FDLimit // (a package variable: a core run of the same worker process may have lowered it)
 		eng := nbhttp.NewEngine(conf)
 		if err := eng.Start(); err != nil {
 			o.Infra = "engine start: " + err.Error()
